@@ -3,11 +3,12 @@
 usage: tools/seedstore.py <PROP> <seedN> [result json ...]   (results of tools/seedcheck.py; merged)"""
 import json, os, shutil, sys
 prop, sn = sys.argv[1], sys.argv[2]
-src = '/tmp/seed_%s/%s' % (prop, sn)
+src = '/tmp/%s_%s/%s' % ('seedb' if sn in ('seed3', 'seed4') else 'seed', prop, sn)
 dst = '/verif/seeded/%s_%s' % (prop, sn)
 os.makedirs(dst, exist_ok=True)
-for f in ('patch.diff', 'demo.py'):
-    shutil.copy(os.path.join(src, f), os.path.join(dst, f))
+for f in sorted(os.listdir(src)):
+    if os.path.isfile(os.path.join(src, f)) and not f.endswith('.pyc') and os.path.getsize(os.path.join(src, f)) < 2e6:
+        shutil.copy(os.path.join(src, f), os.path.join(dst, f))
 meta = json.load(open(os.path.join(src, 'meta.json')))
 ran = dict(verified_by_lead=True, demo_unchanged_rc=None, demo_patched_rc=None, stable_tests_missing=None, checks={})
 for rf in sys.argv[3:]:
